@@ -406,12 +406,34 @@ where
     where
         F: FnMut(&mut I, &mut P) -> bool,
     {
-        self.map.retain2(predicate);
-        if self.map.len() != self.size {
-            self.size = self.map.len();
-            self.heap = (0..self.size).map(Index).collect();
-            self.qp = (0..self.size).map(Position).collect();
+        /// Realigns `heap`, `qp` and `size` with the map when dropped, also
+        /// if `predicate` panics after some elements have been removed.
+        struct Realign<'a, I, P, H> {
+            store: &'a mut Store<I, P, H>,
+            completed: bool,
         }
+
+        impl<I, P, H> Drop for Realign<'_, I, P, H> {
+            fn drop(&mut self) {
+                let store = &mut *self.store;
+                if !self.completed {
+                    // `predicate` panicked: let the map complete its own bookkeeping
+                    store.map.retain(|_, _| true);
+                }
+                if store.map.len() != store.size {
+                    store.size = store.map.len();
+                    store.heap = (0..store.size).map(Index).collect();
+                    store.qp = (0..store.size).map(Position).collect();
+                }
+            }
+        }
+
+        let mut guard = Realign {
+            store: self,
+            completed: false,
+        };
+        guard.store.map.retain2(predicate);
+        guard.completed = true;
     }
 
     /// If the predicate returns true for the element in position `position`,
